@@ -2,13 +2,20 @@ import Driver.Proto
 import Gotree.Spec.C12
 import Gotree.Model.C12R
 import Gotree.Model.C12Cli
+import Gotree.Model.C12Fmt
 
 namespace Gotree.Driver.C12
 open Gotree Gotree.Driver Gotree.C12
 
-def parseAlgo : String → Option Algo
+def parseAlgo0 : String → Option Algo
   | "deltran" => some .deltran | "acctran" => some .acctran | "downpass" => some .downpass
   | "none" => some .none | _ => none
+
+/-- the algo field: `algo` or `algo~prior` (the harness first ran `prior` on the same tree object: a two-step
+    history; the second run starts from scratch — ids, state slices, comments — so the model is that of one run) -/
+def parseAlgo (s : String) : Option Algo := parseAlgo0 ((s.splitOn "~").headD "")
+
+def hasPrior (s : String) : Bool := (s.splitOn "~").length > 1
 
 mutual
 def nodeComments : T → List (List String)
@@ -72,7 +79,7 @@ def acrTipRooted (t : T) (m : List (String × String)) (algo : Algo) (outcome st
   else
   match stepsS.toNat?, T.undump dumpAfter with
   | some steps, some ta =>
-    let isets : List (List String) := (nodeComments ta).map fun c => splitSet "|" (c.headD "")
+    let isets : List (List String) := (nodeComments ta).map fun c => sortStrings (readAcrComment (c.headD ""))
     let silentZero := steps == 0 && (isets.drop 1).all (· == ["*"]) && isets.length ≥ 2
     if missingAll then
       ⟨.oracle, tags0, (if silentZero then rootTipClass ++ " — " else "") ++ "a tip without state was accepted"⟩ else
@@ -107,7 +114,8 @@ def handleAcr0 (f : List String) : Verdict :=
       let model := acr t m algo
       let missing := !((lookedUp t).all fun n => (lookup m n).isSome)
       let tags0 := shapeTags t ++ ["algo-" ++ algoStr algo] ++ tagIf missing "tip-missing" ++
-        tagIf (keys.any fun k => !t.tipNames.contains k) "extra-map-entries"
+        tagIf (keys.any fun k => !t.tipNames.contains k) "extra-map-entries" ++ tagIf (hasPrior al) "prior-run" ++
+        tagIf ((nodeComments t).any (!·.isEmpty)) "input-comments"
       if outcome.startsWith "panic" then ⟨.oracle, tags0, "panic: " ++ outcome⟩ else
       if tipRooted t then acrTipRooted t m algo outcome stepsS dumpAfter tags0 model else
       if outcome == "err" then
@@ -120,7 +128,7 @@ def handleAcr0 (f : List String) : Verdict :=
       match stepsS.toNat?, T.undump dumpAfter with
       | some steps, some ta =>
         let comments := nodeComments ta
-        let isets : List (List String) := comments.map fun c => splitSet "|" (c.headD "")
+        let isets : List (List String) := comments.map fun c => sortStrings (readAcrComment (c.headD ""))
         let imap : List (String × List String) := List.zip mkeys (mvals.map (splitSet ","))
         -- oracle vocabulary: the states of the tips of this tree, in order of appearance
         let tipStates := (leavesL t.kids).filterMap (lookup m)
@@ -180,15 +188,6 @@ def handleAcr0 (f : List String) : Verdict :=
     | _, _, _, _, _, _, _, _ => bad "C12.acr fields"
   | _ => bad "C12.acr arity"
 
-/-- parse an ASR comment: per site one character or `{…}` (`cur` = inside braces) -/
-def parseSeqSets : List Char → Option (List String) → List (List String) → Option (List (List String))
-  | [], none, acc => some acc.reverse
-  | [], some _, _ => none
-  | '{' :: r, none, acc => parseSeqSets r (some []) acc
-  | '}' :: r, some cur, acc => parseSeqSets r none (cur.reverse :: acc)
-  | c :: r, some cur, acc => parseSeqSets r (some (String.singleton c :: cur)) acc
-  | c :: r, none, acc => parseSeqSets r none ([String.singleton c] :: acc)
-
 def asrUniverse : List String := ["A", "C", "G", "T", "-"]
 
 def isPlain (c : Char) : Bool := c == 'A' || c == 'C' || c == 'G' || c == 'T' || c == '-'
@@ -212,6 +211,7 @@ def handleAsr0 (prot : Bool) (f : List String) : Verdict :=
       let plain := seqs.all fun s => s.toList.all fun c => if prot then aaChars.contains c else isPlain c
       let tags0 := "asr" :: shapeTags t ++ ["algo-" ++ algoStr algo] ++ tagIf missing "tip-missing" ++
         tagIf plain "unambiguous-alignment" ++ tagIf (!plain) "iupac-ambiguity" ++ tagIf (len == 0) "empty-alignment" ++
+        tagIf (hasPrior al) "prior-run" ++ tagIf ((nodeComments t).any (!·.isEmpty)) "input-comments" ++
         tagIf (seqs.any fun s => s.toList.contains '-') "gaps" ++ tagIf odd "non-iupac-char" ++ tagIf prot "protein" ++ tagIf (prot && seqs.any fun s => s.toList.contains 'X') "all-amino-X"
       if outcome.startsWith "panic" then ⟨.oracle, tags0, "panic: " ++ outcome⟩ else
       if outcome == "err" then
@@ -225,7 +225,7 @@ def handleAsr0 (prot : Bool) (f : List String) : Verdict :=
       match parseNatList stepsS, T.undump dumpAfter, (splitTerm ";" rrs).mapM parseNatList with
       | some steps, some ta, some rr =>
         let comments := nodeComments ta
-        match comments.mapM (fun c => parseSeqSets (c.getLastD "").toList none []) with
+        match comments.mapM (fun c => readSeqSets (c.getLastD "")) with
         | none => bad "C12.asr comment"
         | some perNode =>
           -- perNode : node → site → chars
@@ -297,7 +297,13 @@ def handleAsr0 (prot : Bool) (f : List String) : Verdict :=
           | some mo =>
             if mo.steps.take len != steps.take len then ⟨.tie, tags, "model steps " ++ toString mo.steps⟩
             else if !((List.range len).all fun j => (mo.sets.getD j []).map sortStrings == siteSets0 j) then ⟨.tie, tags, "model sets differ"⟩
-            else ⟨.pass, tags, ""⟩
+            else
+              -- fidelity figures (decide nothing): the text of the comment character by character (order of the characters,
+              -- braces, `*`), and the comments already on the tree kept in front of it
+              let exact := (List.range perNode.length).all fun i =>
+                asrComment ((List.range len).map fun j => (mo.sets.getD j []).getD i []) == (comments.getD i []).getLastD ""
+              let kept := hasPrior al || comments.map (·.dropLast) == nodeComments t
+              ⟨.pass, tags ++ tagIf exact "fidelity-exact-asr-comments" ++ tagIf kept "fidelity-asr-old-comments-kept", ""⟩
       | _, _, _ => bad "C12.asr outputs"
     | _, _, _, _, _ => bad "C12.asr fields"
   | _ => bad "C12.asr arity"
@@ -319,7 +325,7 @@ def handleAcrR (f : List String) : Verdict :=
       if outcome != "ok" then ⟨if rootOk tO then .oracle else .tie, tags0, "random resolution failed: " ++ outcome⟩ else
       match stepsS.toNat?, T.undump dumpAfter, (if nextS == "" then some none else nextS.toNat?.map some) with
       | some steps, some ta, some next =>
-        let isets0 : List (List String) := (nodeComments ta).map fun c => splitSet "|" (c.headD "")
+        let isets0 : List (List String) := (nodeComments ta).map fun c => sortStrings (readAcrComment (c.headD ""))
         let isets := if tr then fwdOrder isets0 else isets0
         let silentZero := tr && steps == 0 && (isets0.drop 1).all (· == ["*"]) && isets0.length ≥ 2
         let tOrig := t
@@ -379,6 +385,8 @@ def handleAcrFull (f : List String) : Verdict :=
     match (splitTerm "|" dumps).mapM T.undump, parseStrList linesS, unescape algoE, unescape stepsE,
       (if statesE == "-" then some none else (unescape statesE).map some) with
     | some trees, some lines, some algoS, some stepsTxt, some statesTxt =>
+      -- `--algo` left out: the flag default
+      let algoS := if (opts.splitOn ",").contains "algo-default" then cliDefaultAlgo else algoS
       let model := acrCli algoS lines trees
       let tags := ["cli", "cli-full", "trees-" ++ toString trees.length] ++ (opts.splitOn ",").filter (· != "") ++
         tagIf ((cliAlgo algoS).isNone) "algo-unknown" ++ tagIf (algoS != algoS.toLower) "algo-mixed-case" ++
@@ -428,6 +436,7 @@ def handleAsrFull (f : List String) : Verdict :=
   | [dumps, ns, sqs, algoE, opts, outcome, logE, dumpsAfter] =>
     match (splitTerm "|" dumps).mapM T.undump, parseStrList ns, parseStrList sqs, unescape algoE, unescape logE with
     | some trees, some names, some seqs, some algoS, some logTxt =>
+      let algoS := if (opts.splitOn ",").contains "algo-default" then cliDefaultAlgo else algoS
       let m := zipMap names seqs
       let len := (seqs.headD "").length
       let tags := ["cli", "cli-full", "asr", "trees-" ++ toString trees.length] ++ (opts.splitOn ",").filter (· != "") ++
@@ -475,7 +484,7 @@ def handleAsrR (f : List String) : Verdict :=
       if outcome != "ok" then ⟨if rootOk tO then .oracle else .tie, tags0, "random resolution failed: " ++ outcome⟩ else
       match parseNatList stepsS, T.undump dumpAfter, (if nextS == "" then some none else nextS.toNat?.map some) with
       | some steps, some ta, some next =>
-        match (nodeComments ta).mapM (fun c => parseSeqSets (c.getLastD "").toList none []) with
+        match (nodeComments ta).mapM (fun c => readSeqSets (c.getLastD "")) with
         | none => bad "C12.asrr comment"
         | some perNode =>
           if !(perNode.all (·.length == len) && steps.length ≥ len) then ⟨.oracle, tags0, "wrong number of sites in the output"⟩ else
